@@ -95,6 +95,8 @@ add("C11",
 
 # ---------------------------------------------------------------- C12
 add("C12",
+    V("year-default-after-zone-application", "C12", [(DATE, "            if \"year\" in missing_parts:\n                today = datetime.today()\n                date_obj = date_obj.replace(year=today.year)\n\n            try:\n                date_obj = apply_timezone_from_settings(date_obj, settings)\n            except OverflowError:\n                continue\n\n", "            try:\n                date_obj = apply_timezone_from_settings(date_obj, settings)\n            except OverflowError:\n                continue\n\n            if \"year\" in missing_parts:\n                today = datetime.today()\n                date_obj = date_obj.replace(year=today.year)\n\n")], "fire", "C12.R4",
+      note="seeded change C12-3: the zone is chosen for year 1900 (LMT offsets) and kept when the year is replaced"),
     V("strip-ignores-string-zone", "C12", [(DP, '            and "default" == settings.RETURN_AS_TIMEZONE_AWARE\n            and not ptz\n', '            and "default" == settings.RETURN_AS_TIMEZONE_AWARE\n')], "fire", "C12.R1"),
     V("helper-keeps-aware-by-default", "C12", [(UTILS, "    if settings.RETURN_AS_TIMEZONE_AWARE is not True:", "    if settings.RETURN_AS_TIMEZONE_AWARE is False:")], "fire", "C12.R1"),
     V("localize-guard-removed", "C12", [(UTILS, "    if date_time.tzinfo:\n        return date_time\n\n    tz = get_timezone_from_tz_string(tz_string)", "    tz = get_timezone_from_tz_string(tz_string)")], "fire", "C12.R2"),
